@@ -612,9 +612,14 @@ func diffLines(a, b string) string {
 
 // ---------------------------------------------------------------- building the served world
 
-func buildArchive(es []Entry) []byte {
+func buildArchive(es []Entry) []byte { return buildArchiveC(es, "") }
+
+// buildArchiveC: the archive with a gzip header comment (ignored by every reader; used to pad
+// a tampered archive to the exact length of the one it replaces).
+func buildArchiveC(es []Entry, comment string) []byte {
 	var buf bytes.Buffer
 	gz := gzip.NewWriter(&buf)
+	gz.Header.Comment = comment
 	tw := tar.NewWriter(gz)
 	for _, e := range es {
 		h := &tar.Header{Name: e.Name, Mode: e.Mode}
@@ -802,6 +807,53 @@ func (w *World) install(i int) (err error) {
 	return w.runInstall(i)
 }
 
+// tamperCache models bit rot / tampering of stored bytes: every artifact in the download cache
+// that is the archive of one of the scenario's attempts is replaced, at exactly the same
+// length and with its meta.json untouched, by a well-formed archive whose root file has other
+// contents. A later install that finds the entry must notice (the bytes no longer hash to the
+// digest the index declares) and must not install from it. Returns how many entries changed.
+func (w *World) tamperCache() int {
+	dirs, _ := filepath.Glob(filepath.Join(w.target, ".registry", "cache", "*", "artifact"))
+	sort.Strings(dirs)
+	n := 0
+	for _, p := range dirs {
+		cur, err := os.ReadFile(p)
+		if err != nil {
+			continue
+		}
+		for i := range w.sc.Attempts {
+			if !bytes.Equal(cur, w.archive[i]) {
+				continue
+			}
+			for _, mask := range []byte{0xff, 0x55, 0xaa, 0x0f, 0x33} {
+				evil := make([]Entry, len(w.sc.Attempts[i].Entries))
+				copy(evil, w.sc.Attempts[i].Entries)
+				for k := range evil {
+					if evil[k].Type == "reg" {
+						c := append([]byte(nil), evil[k].contents...)
+						for j := range c {
+							c[j] ^= mask
+						}
+						evil[k].contents = c
+					}
+				}
+				raw := buildArchive(evil)
+				if len(raw) < len(cur) {
+					raw = buildArchiveC(evil, strings.Repeat("x", len(cur)-len(raw)-1))
+				}
+				if len(raw) == len(cur) && !bytes.Equal(raw, cur) {
+					if os.WriteFile(p, raw, 0o600) == nil {
+						n++
+					}
+					break
+				}
+			}
+			break
+		}
+	}
+	return n
+}
+
 // uninstall removes what attempt i installed through the real registry.Uninstall.
 func (w *World) uninstall(i int) (err error) {
 	w.cur, w.ops, w.crashed, w.faultFired, w.opLog = i, 0, false, false, nil
@@ -892,6 +944,7 @@ type Stats struct {
 	Faults                                                      map[string]int
 	Ops                                                         int
 	PowerLossPoints, UnsyncedFilesCut, TornBinaries, Uninstalls int
+	CacheEntriesTampered                                        int // cached artifacts replaced (same length, other contents) before a re-install
 	FreshnessAttempts, FreshnessAccepted                        int // freshness-only re-signed indexes presented / accepted (clean passes)
 	ConcRuns, ConcCrashes, ConcFaults, LockWaits, LockTimeouts  int
 	Schedules                                                   int // distinct schedules (sequences of scheduler picks) of interleaved installs
@@ -1129,9 +1182,14 @@ func RunScenario(sc *Scenario, base string, maxPoints int, only *Found, st *Stat
 				_ = x.uninstall(i)
 				st.Runs++
 				x.checkTree(fmt.Sprintf("retry of the uninstall of attempt %d after %s at operation %d", i, mode, op))
+				tampered := 0
+				if (op+len(mode))%2 == 0 {
+					tampered = x.tamperCache()
+					st.CacheEntriesTampered += tampered
+				}
 				_ = x.install(i)
 				st.Runs++
-				x.checkTree(fmt.Sprintf("re-install of attempt %d after an interrupted uninstall (%s at operation %d)", i, mode, op))
+				x.checkTree(fmt.Sprintf("re-install of attempt %d after an interrupted uninstall (%s at operation %d; %d cached artifacts replaced by same-length archives with other contents before it)", i, mode, op, tampered))
 				st.TornBinaries += x.tornBinaries
 				report(x, i, mode, op)
 				_ = os.RemoveAll(sb)
